@@ -247,3 +247,75 @@ func c02xxh32(b []byte) uint32 {
 	h ^= h >> 16
 	return h
 }
+
+// c02KeystreamReuse: "server-side store entries never reveal tokens ... in recoverable plain text" across
+// SEVERAL values of one entry. A session saved again on a request that carries its ticket keeps the
+// ticket and with it the entry's key; if the second value is sealed under the same keystream as the
+// first, value1 XOR value2 is plaintext1 XOR plaintext2 and whoever knows one session reads the other.
+// The two sessions differ in a 256-character access token of 'A's resp. 'B's at the same place: a run
+// of 'A'^'B' bytes in the XOR of the two stored values is a reused keystream.
+func c02KeystreamReuse(c *Ctx, up *world.Upstream) {
+	rd := world.NewRedis()
+	defer rd.Close()
+	px, err := buildProxy(&ProxyCfg{Flags: append(baseFlags(up.URL()), "--email-domain=*", "--cookie-secure=false"), Redis: rd})
+	if err != nil {
+		c.Error("C02 keystream: %v", err)
+		return
+	}
+	mk := func(ch string) *sessions.SessionState {
+		s := &sessions.SessionState{User: "alice-sub", Email: "alice@example.com", AccessToken: strings.Repeat(ch, 256), RefreshToken: "rt"}
+		s.CreatedAtNow()
+		return s
+	}
+	value := func() string {
+		for _, k := range rd.Keys() {
+			if !strings.HasSuffix(k, ".lock") {
+				v, _ := rd.M.Get(k)
+				return v
+			}
+		}
+		return ""
+	}
+	rec := httptest.NewRecorder()
+	req := httptest.NewRequest("GET", "http://app.example.com/", nil)
+	if err := verifSessionStore(px.P).Save(rec, req, mk("A")); err != nil {
+		c.Error("C02 keystream: first save: %v", err)
+		return
+	}
+	v1 := value()
+	jar := world.NewJar()
+	jar.SetCookies("http", "app.example.com", "/", rec.Header())
+	req2, _ := (&world.Req{Method: "GET", Target: "/", Host: "app.example.com", Headers: [][2]string{{"Cookie", jar.Header("http", "app.example.com", "/")}}}).Parse()
+	if err := verifSessionStore(px.P).Save(httptest.NewRecorder(), req2, mk("B")); err != nil {
+		c.Error("C02 keystream: second save: %v", err)
+		return
+	}
+	v2 := value()
+	c.Inc("evaluations")
+	c.Inc("store_values_of_one_entry_compared")
+	if v1 == "" || v2 == "" || len(rd.Keys()) != 1 {
+		c.Inc("store_values_second_save_used_another_entry")
+		return
+	}
+	n := len(v1)
+	if len(v2) < n {
+		n = len(v2)
+	}
+	run, best := 0, 0
+	for i := 0; i < n; i++ {
+		if v1[i]^v2[i] == 'A'^'B' {
+			run++
+			if run > best {
+				best = run
+			}
+		} else {
+			run = 0
+		}
+	}
+	if best >= 64 {
+		c.Violate("C02/store-values-of-one-entry-share-a-keystream", fmt.Sprintf("two values stored under the same entry (a session saved again on a request carrying its ticket) XOR to a run of %d bytes equal to 'A'^'B': both were sealed under the same keystream, so either session is readable from the other (first 12 bytes of the values: %x / %x)", best, v1[:12], v2[:12]), 2,
+			map[string]any{"kind": "keystream-reuse", "run": best})
+	} else {
+		c.Inc("store_values_independent")
+	}
+}
